@@ -1,6 +1,7 @@
 package sctp
 
 import (
+	"github.com/pion/sctp/internal/vsched"
 	"encoding/json"
 	"fmt"
 	"os"
@@ -135,6 +136,9 @@ func TestVerif(t *testing.T) {
 		if err := writeJSON(j.Out, res); err != nil {
 			t.Fatal(err)
 		}
+	}
+	if dir := os.Getenv("VERIF_COVOUT"); dir != "" {
+		_ = writeJSON(fmt.Sprintf("%s/%s-%s-%d.json", dir, prop, j.Tier, j.Shard), vsched.CovDump())
 	}
 	fmt.Printf("VERIF-DONE prop=%s shard=%d/%d execs=%d steps=%d violations=%d wall=%.1fs\n", prop, j.Shard, j.NShards, j.Stats.Execs, j.Stats.Steps, len(j.Stats.Violations), time.Since(start).Seconds())
 }
